@@ -209,6 +209,17 @@ pub fn generate(run_seed: u64, quick: bool) -> Scenario {
     if !bounded_width {
         config.pad_block_width = false;
     }
+    // A huge min_wrap_width acts like an unbounded width when overflow is
+    // allowed: every block is forced to be as wide as its whole text, and if
+    // the text is also wrapped narrowly (max_wrap_width) the result is again
+    // lines x block width - 8 GB for a 90 KB document, met as an `abort:oom` at
+    // run 2 820 704 of the thorough tier.  Same envelope as for unbounded widths:
+    // such values only go with small documents.
+    if let Some(k) = config.min_wrap_width {
+        if k > 1000 && doc_bytes_len > 6000 {
+            config.min_wrap_width = Some(wl.pick(&[0usize, 1, 3, 10, 40]));
+        }
+    }
     // --- route
     let pg = PlanGen {
         eintr: true,
